@@ -332,9 +332,7 @@ impl KnowledgeGraphSnapshot {
         for (rel, tuples) in self.input_tuples.as_ref() {
             if let Some(extra) = needs_mutation.remove(rel) {
                 // This relation needs session facts: clone and extend
-                let mut cloned = tuples.clone();
-                cloned.extend(extra);
-                isolated_tuples.insert(rel.clone(), cloned);
+                isolated_tuples.insert(rel.clone(), merge_session_facts(tuples, extra));
             } else {
                 // No session facts for this relation: share the existing vec
                 isolated_tuples.insert(rel.clone(), tuples.clone());
@@ -342,7 +340,7 @@ impl KnowledgeGraphSnapshot {
         }
         // Add relations that only exist in session facts (not in base data)
         for (rel, tuples) in needs_mutation {
-            isolated_tuples.insert(rel, tuples);
+            isolated_tuples.insert(rel, merge_session_facts(&[], tuples));
         }
 
         // Set the isolated tuples on the engine (needed for pipeline)
@@ -392,15 +390,13 @@ impl KnowledgeGraphSnapshot {
             HashMap::with_capacity(self.input_tuples.len() + needs_mutation.len());
         for (rel, tuples) in self.input_tuples.as_ref() {
             if let Some(extra) = needs_mutation.remove(rel) {
-                let mut cloned = tuples.clone();
-                cloned.extend(extra);
-                isolated_tuples.insert(rel.clone(), cloned);
+                isolated_tuples.insert(rel.clone(), merge_session_facts(tuples, extra));
             } else {
                 isolated_tuples.insert(rel.clone(), tuples.clone());
             }
         }
         for (rel, tuples) in needs_mutation {
-            isolated_tuples.insert(rel, tuples);
+            isolated_tuples.insert(rel, merge_session_facts(&[], tuples));
         }
 
         let shared = Arc::new(isolated_tuples);
@@ -466,6 +462,24 @@ impl std::fmt::Debug for KnowledgeGraphSnapshot {
             .field("materialized", &self.materialized_count())
             .finish()
     }
+}
+
+/// A relation's stored tuples plus the session facts stated for it, as a set: a session fact
+/// equal to a stored fact (or stated twice) must not become a second copy, or aggregates
+/// (count, sum, ...) over the relation would see it twice.
+fn merge_session_facts(base: &[Tuple], extra: Vec<Tuple>) -> Vec<Tuple> {
+    let mut fresh: Vec<Tuple> = Vec::with_capacity(extra.len());
+    {
+        let stored: HashSet<&Tuple> = base.iter().collect();
+        for t in extra {
+            if !stored.contains(&t) && !fresh.contains(&t) {
+                fresh.push(t);
+            }
+        }
+    }
+    let mut merged = base.to_vec();
+    merged.extend(fresh);
+    merged
 }
 
 #[cfg(test)]
